@@ -1,0 +1,59 @@
+//go:build verif
+
+package p9p
+
+// Observation hooks for the external verification harness in /verif.
+// Compiled only with -tags verif; adds no behaviour to the package.
+
+// VerifFid is a snapshot of one entry of a server session's fid table.
+type VerifFid struct {
+	Fid    Fid
+	Locked bool   // the entry's mutex was held at the time of the snapshot (fields below not read)
+	HasEnt bool   // Ent != nil (false: a fid reserved by an attach/walk in progress)
+	Ent    Dirent // the bound entry
+	File   File   // non-nil if opened
+	Open   bool
+	Mode   Flag
+}
+
+// VerifFidTable returns the fid table of a Session created by SFileSys.
+// ok is false if s is not such a session.
+func VerifFidTable(s Session) (table []VerifFid, ok bool) {
+	sess, ok := s.(*session)
+	if !ok {
+		return nil, false
+	}
+	sess.refs.Range(func(k, v interface{}) bool {
+		fid, _ := k.(Fid)
+		ref, _ := v.(*SFid)
+		e := VerifFid{Fid: fid}
+		if ref == nil {
+			table = append(table, e)
+			return true
+		}
+		if !ref.TryLock() {
+			e.Locked = true
+			table = append(table, e)
+			return true
+		}
+		e.HasEnt = ref.Ent != nil
+		e.Ent = ref.Ent
+		e.File = ref.File
+		e.Open = ref.File != nil
+		e.Mode = ref.Mode
+		ref.Unlock()
+		table = append(table, e)
+		return true
+	})
+	return table, true
+}
+
+// VerifAllocateTag exposes the client's tag allocator as a pure function of
+// the set of tags in use and the previous tag.
+func VerifAllocateTag(inUse []Tag, hint Tag) (Tag, error) {
+	m := make(map[Tag]*fcallRequest, len(inUse))
+	for _, t := range inUse {
+		m[t] = nil
+	}
+	return allocateTag(nil, m, hint)
+}
